@@ -517,6 +517,13 @@ Proof.
 Qed.
 
 (* ------------------------------------------------------------------ one operation: where the ids of the result come from *)
+Lemma descendant_of_find : forall p n x, p <> [] -> i_find n p = Some x -> sub (i_ids x) (kids n).
+Proof.
+  intros [|s r] n x NE F; [contradiction|]. cbn [i_find] in F.
+  destruct (ichild_pos n s) as [i|]; [|discriminate]. destruct (nth_error (i_ch n) i) as [c|] eqn:N; [|discriminate].
+  unfold kids. rewrite (kids_split _ _ _ N). apply sub_app_r. apply sub_app_l. apply (find_sub r c x F).
+Qed.
+
 Definition vids (o : ipop) : list Z := match ip_val o with Some v => i_ids v | None => [] end.
 
 Definition op_acct (next : Z) (t : inode) (o : ipop) (r : Z * (rc * inode)) : Prop :=
@@ -542,12 +549,18 @@ Proof.
   destruct (is_root (ip_path o)).
   { destruct (op_eqb (ip_op o) ORemove).
     { unfold op_acct. cbn [fst snd]. split; [lia|]. destruct t. cbn [i_ids flat_map]. apply sub_app_l. apply sub_cons. apply sub_nil. }
-    destruct (op_eqb (ip_op o) OReplace || op_eqb (ip_op o) OAdd || op_eqb (ip_op o) OAddCreate); [|apply acct_keep].
-    destruct (ip_val o) as [v|] eqn:EV; [|apply acct_keep].
-    unfold op_acct, vids. rewrite EV. cbn [fst snd]. split; [lia|]. destruct v as [vi vp vkl vkey vty vvi vvs vch]. cbn [i_ids].
-    assert (E : flat_map i_ids (if rp then map (iset_par (i_id t)) vch else vch) = flat_map i_ids vch).
-    { destruct rp; [|reflexivity]. apply flat_map_ids_ext. intro x. apply ids_set_par. }
-    rewrite E, (ids_unfold t). cbn [app]. apply sub_cons. apply sub_app_r. apply sub_drop. apply sub_app_l. apply sub_refl. }
+    destruct (op_eqb (ip_op o) OReplace || op_eqb (ip_op o) OAdd || op_eqb (ip_op o) OAddCreate).
+    { destruct (ip_val o) as [v|] eqn:EV; [|apply acct_keep].
+      unfold op_acct, vids. rewrite EV. cbn [fst snd]. split; [lia|]. rewrite fresh_nil, app_nil_r. apply sub_copy_data. }
+    destruct (op_eqb (ip_op o) OMove || op_eqb (ip_op o) OCopy); [|apply acct_keep].
+    destruct (ip_from o) as [[|s r]|]; try apply acct_keep.
+    destruct (i_find t (s :: r)) as [v|] eqn:FV; [|apply acct_keep].
+    unfold op_acct. cbn [fst snd]. split; [lia|]. apply sub_app_l.
+    (* the value lies inside the document: what the root takes over is part of what it had *)
+    rewrite ids_copy_data, (ids_unfold t). apply sub_cons.
+    assert (P : forall p n x, p <> [] -> i_find n p = Some x -> sub (kids x) (kids n)).
+    { intros p n x NE F. eapply sub_trans; [|apply (descendant_of_find p n x NE F)]. rewrite (ids_unfold x). apply sub_drop. apply sub_refl. }
+    apply (P (s :: r) t v ltac:(discriminate) FV). }
   (* t1: after the detach of remove / replace *)
   assert (T1 : forall t1, (if op_eqb (ip_op o) ORemove || op_eqb (ip_op o) OReplace
                            then match i_detach t (ip_path o) with None => None | Some (t', _) => Some t' end else Some t) = Some t1 ->
@@ -584,6 +597,7 @@ Proof.
       apply (acct_mono next t t1 o _ T1). split; [exact A|]. unfold vids. rewrite EV. exact B. }
   apply op_eqb_eq in KS. rewrite KS.
   destruct (ip_from o) as [f|]; [|apply KEEP1].
+  destruct (seg_nested f (ip_path o)); [apply KEEP1|].
   destruct (i_find t1 f) as [v|] eqn:FV; [|apply KEEP1].
   destruct (i_locate t1 f) as [pf|] eqn:LF; [|apply KEEP1].
   assert (GV : i_get_at t1 pf = Some v) by (rewrite <- (locate_find_i f t1 pf LF); exact FV).
